@@ -36,7 +36,12 @@ def aborted_txn(m, rng, res, conflict):
     n = rng.randrange(1, 13)
     kinds_done = []
     hit_abort = False
+    multi = len(m.tables) > 1 and rng.random() < 0.4      # the transaction changes several tables: one rollback over all of them
+    first_name = name
     for _ in range(n):
+        if multi:
+            name = rng.choice(list(m.tables))
+            types, names, kinds = m.tables[name]
         r = rng.random()
         if r < 0.35:
             vals = m.rnd_vals(name, small=False)
@@ -72,7 +77,9 @@ def aborted_txn(m, rng, res, conflict):
     if holder:
         m.db.cmd("abort h")
     after = snapshot(m)
-    what = "%s txn(%s)%s" % ("conflict-abort" if hit_abort else "abort", ",".join(kinds_done), " [holder]" if holder else "")
+    what = "%s txn(%s)%s%s" % ("conflict-abort" if hit_abort else "abort", ",".join(kinds_done), " [holder]" if holder else "", " [several tables]" if multi else "")
+    name = first_name
+    types, names, kinds = m.tables[name]
     for n2 in before:
         for k in before[n2]:
             if before[n2][k] != after[n2][k]:
